@@ -171,6 +171,23 @@ func c13ViaWrapper(kind string, code codes.Code, msg string) ([]byte, bool) {
 	return rest, len(rest) > 0
 }
 
+func c13HeaderViaWrapper(wire []byte) (p2p.Header, bool) {
+	fh := &c13Host{}
+	svc := &Service{baseCtx: context.Background(), host: fh, peers: newPeerRegistry(), logger: util.NewTestLogger(io.Discard),
+		metrics: newMetrics(prometheus.NewRegistry(), "verif"), blockMap: make(map[peer.ID]blockInfo)}
+	pid := peer.ID("c13-remote")
+	conn := &c04Conn{pid: pid}
+	svc.peers.addPeer(conn, &p2p.Peer{Type: p2p.PeerTypeBidder})
+	var seen p2p.Header
+	called := false
+	svc.AddStreamHandlers(p2p.StreamDesc{Name: "verif", Version: "1.0.0",
+		Header: func(_ context.Context, _ p2p.Peer, h p2p.Header) p2p.Header { seen, called = h, true; return p2p.Header{} },
+		Handler: func(context.Context, p2p.Peer, p2p.Stream) error { return nil }})
+	ls := &c04Stream{rd: bytes.NewReader(wire), conn: conn, writeFail: -1}
+	fh.handler(ls)
+	return seen, called
+}
+
 func c13Run(in c13In, rng *vrng) (obs c13Obs) {
 	obs.Reads = []c13Read{}
 	obs.WriteErr = []string{}
@@ -192,6 +209,13 @@ func c13Run(in c13In, rng *vrng) (obs c13Obs) {
 			return obs
 		}
 		obs.WireLen = w.Len()
+		if in.Tag == "header-via-wrapper" {
+			// the headers as the protocol's header function is handed them by the node's stream wrapper
+			got, ok := c13HeaderViaWrapper(w.Bytes())
+			eq := ok && proto.Equal(&structpb.Struct{Fields: got}, &structpb.Struct{Fields: hdr})
+			obs.HeaderEq = &eq
+			return obs
+		}
 		r := &c13Chunked{data: w.Bytes(), chunk: in.Chunk, rng: rng}
 		got, err := newMetadataStream(r).ReadHeader(ctx)
 		eq := err == nil && proto.Equal(&structpb.Struct{Fields: got}, &structpb.Struct{Fields: hdr})
@@ -390,7 +414,7 @@ func TestVerifC13(t *testing.T) {
 	// errors returned by a protocol handler through the node's stream wrapper: every non-OK code,
 	// plain errors (code Unknown, the error text), errors wrapping context.Canceled
 	for code := 1; code <= 16; code++ {
-		for _, m := range []string{"", "handler says no"} {
+		for _, m := range []string{"", "handler says no", "peer %s not found", "100% of %d bids", "%!x(MISSING) %v %%"} {
 			in := c13In{Tag: "handler-error", Writes: []c13Write{{T: "error", Code: code, Msg: hexs(m), Via: "status"}, sample()}, Chunk: chunks[rng.intn(len(chunks))]}
 			out.emit(in, c13Run(in, rng))
 		}
@@ -449,5 +473,7 @@ func TestVerifC13(t *testing.T) {
 			in := c13In{Tag: "header", Header: mar(st), IsHeader: true, Chunk: ch}
 			out.emit(in, c13Run(in, rng))
 		}
+		in := c13In{Tag: "header-via-wrapper", Header: mar(st), IsHeader: true, Chunk: 0}
+		out.emit(in, c13Run(in, rng))
 	}
 }
